@@ -50,7 +50,6 @@ UTIL = ['trace', 'timer', 'count_calls', 'deprecated', 'trace_if_returns', 'does
         'overrides', 'require_kwargs', 'mock', 'unimplemented']
 ATTRS_ONLY = ['pedantic', 'validate', 'in_subprocess', 'retry', 'safe_contextmanager', 'safe_async_contextmanager']
 FINDING = 'forAllMethodsRebindsStaticAndClassMethods'
-FINDING_BOUND = 'requireKwargsOnBoundMethodNeedsPositionalArgument'
 
 # ------------------------------------------------------------------ signatures and call styles
 
@@ -1281,12 +1280,6 @@ def judge(case, impl, model):
                     break
     corr = not why
     finding = model.get('region') if (pfail and corr and model.get('region')) else None
-    if pfail and corr and x.get('rk') == 'bound' and pfail.startswith('call '):
-        # PedVerif.Utility.inBoundRegion: the bound method handed to the decorator is called without any positional argument, and the
-        # wrapper raises IndexError (model and implementation agree) before anything underneath runs
-        k = int(pfail[5:pfail.index(':')])
-        if not STYLES[x['styles'][k]][0] and impl['calls'][k]['res'][:3] == ['exc', 'lib', 'IndexError'] and not body_events(impl['calls'][k]['evs']):
-            finding = FINDING_BOUND
     return {'corr': corr, 'pfail': pfail, 'finding': finding, 'tag': tag, 'nontrivial': bool(x['styles']) and impl['deco'] is None,
             'why': '; '.join(why)}
 
